@@ -285,6 +285,17 @@ def opt_map(I, c):
     return Some(I.call_value(c.args[1], [o.f[0]]))
 
 
+@model_re(r'^(std::option::)?Option::filter$')
+def opt_filter(I, c):
+    o = c.args[0]
+    if o.var == 'None':
+        return NONE()
+    cell = [o.f[0]]
+    if I.fork(I.call_value(c.args[1], [Ref(cell, 0)])):
+        return Some(cell[0])
+    return NONE()
+
+
 @model_re(r'^(std::option::)?Option::and_then$')
 def opt_and_then(I, c):
     o = c.args[0]
